@@ -46,6 +46,16 @@ def decVbiAux : Bytes → Nat → Nat → Except Err (Nat × Bytes)
 /-- `EncodeRemainLength(r)`: reads a variable byte integer -/
 def decVbi (bs : Bytes) : Except Err (Nat × Bytes) := decVbiAux bs 0 0
 
+/-- the unread rest of the input at the moment `EncodeRemainLength` gives up with ErrMalformed
+    (only used to report how many bytes a failed `ReadPacket` consumed) -/
+def vbiErrRest : Bytes → Nat → Nat → Bytes
+  | [], _, _ => []
+  | d :: rest, vbi, mult =>
+    let vbi' := vbi ||| shl32 (d % 128) mult
+    if vbi' > vbiMax then rest
+    else if d < 128 then rest
+    else vbiErrRest rest vbi' ((mult + 7) % 4294967296)
+
 /-- the `for` loop of `DecodeRemainLength`; `fuel` = size of the pre-allocated result slice -/
 def vbiDigits : Nat → Nat → Bytes
   | 0, _ => []
